@@ -285,3 +285,31 @@ instances! {
 instances! {
     c02_k32e_nested_err => step_nested(0b0110, 4);
 }
+
+// ---- C03.K4 / C09: a failure caches nothing and the same call succeeds as soon as the source is fixed ---------------
+fn step_retry(mask: u8) {
+    let c = GC::new(Mem::new(any_err_o(), O::Good, nd(), nd()));
+    gfill(&c.map, mask, false);
+    match c._load::<A>("a") {
+        Ok(_) => assert!(false, "C03 load must fail while the file cannot be read or decoded"),
+        Err(e) => {
+            assert!(&**e.id() == "a", "C03 error names the requested id");
+            std::mem::forget(e);
+        }
+    }
+    assert!(!c._contains::<A>("a") && c.map.inserts.get() == 0, "C03 a failure caches nothing");
+    c.src.o[0].set(O::Good); // repair
+    match c._load::<A>("a") {
+        Ok(h) => assert!(h.read().0 == c.src.data[0][0] && c._contains::<A>("a"), "C03 the same call succeeds as soon as the source is fixed"),
+        Err(e) => {
+            std::mem::forget(e);
+            assert!(false, "C03/C09 a failed load must not poison later loads");
+        }
+    }
+    assert!(c.src.reads.get() == 2, "one read per attempt");
+    std::mem::forget(c);
+}
+instances! {
+    c03_k4_retry_0 => step_retry(0b0000);
+    c03_k4_retry_1 => step_retry(0b0110);
+}
